@@ -183,6 +183,22 @@ CLAIMED.update(
     }
 )
 
+CLAIMED.update(
+    {
+        "C27": (
+            "GUARD-DOM of cluster registration by add_to_test / visibility / ignore-list / defining-class tests (NNF edge formulas), argument-provenance rule on add_to_test, visibility table agreement, cached-reader freshness rule, positive-owner formula rule",
+            "Decides the gatekeeping of the test cluster: every add_accessible_object_under_test call of the analysis is under `add_to_test`, which at each entry is "
+            "`<analysed element>.__module__ == root_module_name` and is forwarded unchanged to the method analysis; registration of functions and methods is dominated by the "
+            "visibility test on the unqualified name (table: ALL nothing, PROTECTED private+mangled, PUBLIC private+protected; dependencies always private+protected), by the "
+            "ignore lists (work lists filtered by _is_blacklisted, methods by the ignore-list test, blacklisted modules skipped) read from the configuration at call time with no "
+            "memoised reader, and - for methods - by the defining-class test, whose formula is true only when the defining class was positively resolved to the analysed class. "
+            "Which members inspect enumerates for arbitrary modules (the 'exactly' direction) is not decided.",
+            "Trusts the CFG builder; name-mangled module-level helpers (__analyse_*) are resolved by their source names.",
+            "DESIGN.md §3 C27",
+        ),
+    }
+)
+
 NOT_APPLICABLE: dict[str, str] = {
     "C06": "Correctness of the post-dominator/CDG construction on every code object is functional correctness of a graph "
     "algorithm; no shape of the code implies it and no sound static argument in reach bounds 'all code objects'.",
